@@ -14,6 +14,60 @@ STORE_FAMILIES = {
 JUDGE_PROPS = {p: [p] for p in STORE_FAMILIES}
 JUDGE_PROPS["C11"] = ["C11", "C04"]   # "retrievable from t+d onwards" is judged by the wake-up rule on timed stores
 
+# properties that (also) depend on the node automata and factory-level judges
+NODE_PROPS = {"C03", "C08", "C09", "C15", "C17", "C18", "C19", "C20"}
+
+def node_stage(pid, tier, seed, known, cov, violations, known_hits):
+    import node_family
+    tf = time.time()
+    r = node_family.run_node_family(tier, seed)
+    facs = r["factories"]
+    shapes = {}
+    for f in facs: shapes[f["cfg"].get("shape", "corpus")] = shapes.get(f["cfg"].get("shape", "corpus"), 0) + 1
+    crashes = {}
+    for f in facs:
+        if f["crash"]: crashes[f["crash"][0]] = crashes.get(f["crash"][0], 0) + 1
+    cov["families"]["nodes"] = dict(factories=len(facs), corpus=r["corpus"], node_runs=r["node_runs"], activations=r["activations"],
+                                    divergences=len(r["divergences"]), shapes=shapes, crashes=crashes,
+                                    judge_violations_all_props=sum(len(f["viol"]) for f in facs), wall_s=round(time.time() - tf, 2))
+    cov["evaluations"] += len(facs)
+    cov["distinct_nontrivial"] += sum(1 for f in facs if f["moves"] > 0)
+    cov["traces_validated_against_impl"] += r["node_runs"] - len(r["divergences"]) if r["model_error"] is None else 0
+    if facs:
+        f = facs[min(len(facs) - 1, r["corpus"])]
+        cov["samples"].append(dict(family="nodes", config=f["cfg"], first_activations=f.get("sample")))
+    hits = [(fi, v) for fi, f in enumerate(facs) for v in f["viol"] if v[0] == pid]
+    say(f"[check {pid}] family nodes: {len(facs)} factories, {r['node_runs']} node runs, {r['activations']} activations, "
+        f"{len(r['divergences'])} divergences, {len(hits)} judge hits for {pid}")
+    divf = {d[0] for d in r["divergences"]}
+    fresh = []
+    for fi, (p, rule, msg) in hits:
+        k = None
+        for kf in known:
+            if kf["status"] == "known" and pid in kf["properties"] and kf.get("family") == "nodes" and rule.startswith(kf.get("rule", "~")):
+                k = kf; break
+        if k is not None and fi not in divf and r["model_error"] is None:
+            known_hits[k["id"]] = known_hits.get(k["id"], 0) + 1
+        else:
+            fresh.append((fi, rule, msg))
+    if fresh:
+        fresh.sort(key=lambda x: (len(facs[x[0]]["cfg"]["nodes"]), facs[x[0]]["cfg"].get("horizon", 0)))
+        fi, rule, msg = fresh[0]
+        path = checklib.write_replay(pid, seed, "factory-judge", None, None,
+                                     dict(message=msg, rule=rule, config=facs[fi]["cfg"], factories_failing=len({x[0] for x in fresh})))
+        violations.append((path, msg))
+    elif r["model_error"] is not None:
+        path = checklib.write_replay(pid, seed, "model-driver", None, None, dict(facet="lockstep:nodes", error=r["model_error"]))
+        violations.append((path, "no-failing-input-found"))
+    elif r["divergences"]:
+        fi, ni, k, a, b = min(r["divergences"], key=lambda d: len(facs[d[0]]["nodes"][d[1]][1]))
+        h, ins, outs = facs[fi]["nodes"][ni]
+        path = checklib.write_replay(pid, seed, "node-divergence", None, None,
+                                     dict(facet="lockstep:nodes", node=h, activation=ins[k] if k < len(ins) else None,
+                                          implementation=a, model=b, config=facs[fi]["cfg"],
+                                          diverging_node_runs=len(r["divergences"])))
+        violations.append((path, "no-failing-input-found"))
+
 ASSUME = [
     "theorems are about the hand-written Lean models; the models are tied to the code by sampled lock-step runs",
     "time is integer ticks (1 tick = 1/8 time unit in the harness); real-valued histories are covered up to a common denominator",
@@ -116,13 +170,21 @@ def check_property(pid, tier, seed):
             else:
                 path = checklib.write_replay(pid, seed, "divergence", h, small, detail)
                 violations.append((path, "no-failing-input-found"))
+    if pid in NODE_PROPS:
+        node_stage(pid, tier, seed, known, cov, violations, known_hits)
     # ---- known findings / fixed findings: replay the recorded witnesses on the real code
     for k in known:
         if pid not in k["properties"]: continue
         wpath = os.path.join(VERIF, k["witness"])
         try:
-            h, ops = checklib.read_ops_file(wpath)
-            fails = store_family.judge_fails(pid, h, ops, k.get("rule"))
+            if wpath.endswith(".factory.json"):
+                import node_family
+                f = node_family.eval_factory(json.load(open(wpath)))
+                fails = any(v[0] == pid and (k.get("rule") is None or v[1].startswith(k["rule"])) for v in f["viol"])
+                h, ops = None, None
+            else:
+                h, ops = checklib.read_ops_file(wpath)
+                fails = store_family.judge_fails(pid, h, ops, k.get("rule"))
         except Exception as e:
             say(f"[check {pid}] cannot replay witness of {k['id']}: {e}"); fails = None
         if k["status"] == "known":
